@@ -222,9 +222,10 @@ fn gen_lenient(tape: Vec<u8>) -> LenientCase {
     use crate::refimpl::hex0x;
     let mut u = U::new(&tape);
     let key = gen_valid_scalar(&mut u);
-    let variant = u.below(4);
+    let variant = u.below(5);
     let shape = match variant {
         0 => [Shape::Eip1559, Shape::Eip1559NoList][u.below(2)],
+        4 => Shape::Eip1559,
         2 => [Shape::Eip2930, Shape::Eip1559][u.below(2)],
         _ => txgen::SHAPES[u.below(5)],
     };
@@ -290,6 +291,20 @@ fn gen_lenient(tape: Vec<u8>) -> LenientCase {
             }
             "access-list-object-notation"
         }
+        4 => {
+            // only one of the two fee-market fields, next to everything an EIP-2930 (or legacy) reading needs:
+            // "the kind is EIP-1559 when a fee-market field is present", so the document is refused (a field of
+            // its kind is missing) or read as EIP-1559 - never signed as another kind with the fee field ignored
+            let drop = ["maxFeePerGas", "maxPriorityFeePerGas"][u.below(2)];
+            kv.retain(|(k, _)| k != drop);
+            let g = crate::gen::num::u256_boundary(&mut u);
+            let at = u.below(kv.len() + 1);
+            kv.insert(at, ("gasPrice".into(), plain_number(&g, &mut u)));
+            if u.bool() {
+                kv.retain(|(k, _)| k != "accessList");
+            }
+            "partial-fee-fields"
+        }
         _ => {
             // duplicate of a key with the same value (last-wins or first-wins cannot matter)
             let i = u.below(kv.len());
@@ -318,6 +333,21 @@ fn judge_lenient(c: &LenientCase, cls: &mut Classifier) -> Verdict {
         }
         Ok(true) => {}
     }
+    if c.what == "partial-fee-fields" {
+        let first = catch(|| {
+            let tx = serde_json::from_str::<Transaction>(&c.tx.doc).expect("accepted above");
+            tx.encode(hdwallet::account::Signature::from_parts(ethnum::U256::ONE, ethnum::U256::ONE, 0)).first().copied()
+        });
+        if first != Ok(Some(0x02)) {
+            return fail(
+                "refused, or read as an EIP-1559 transaction (payload type 0x02)",
+                format!("accepted; first payload byte {first:02x?}"),
+                format!("a document with a fee-market field is of kind EIP-1559; signing it as another kind ignores the fee field: {}", crate::engine::truncate(&c.tx.doc, 600)),
+            );
+        }
+        cls.label("lenient/partial-fee-fields/accepted");
+        return Ok(());
+    }
     check_tx(&c.tx.doc, &c.tx.model, &key, cls).map_err(|mut e| {
         e.note = format!("document accepted ({}), so its meaning is fixed by the property: {}", c.what, e.note);
         e
@@ -329,7 +359,7 @@ fn judge_lenient(c: &LenientCase, cls: &mut Classifier) -> Verdict {
 }
 
 pub fn run(ctx: &mut Ctx) {
-    ctx.rule = "transaction record of kind {legacy without/with chain id, EIP-2930, EIP-1559 with/without accessList key}, numeric fields from the 256-bit boundary strategy, recipient absent/null/address, calldata lengths {0,1,2,31,32,55,56,57,255,256,uniform<=2000}, access lists of 0..4 entries x 0..4 slots with repeats, rendered to JSON with shuffled keys; key from the scalar strategy; signature = key.sign(signing_message()). Oracle: reference model (kind rule from keys, unsigned payload digest, signed payload bytes), strict canonical-RLP decode with field-by-field comparison, v/yParity formula, sender recovery over the reference digest. A second sub-check renders documents the tool need not accept but whose meaning is fixed if it does (redundant gasPrice next to fee-market fields, foreign JSON-RPC keys, access-list entries in object notation, a duplicated key): refused -> nothing asserted, accepted -> the same oracle applies. JSON text is re-spelled with random white space and string escapes. Non-trivial: not one of the four pinned near-empty transactions; distinct by (document, key).".into();
+    ctx.rule = "transaction record of kind {legacy without/with chain id, EIP-2930, EIP-1559 with/without accessList key}, numeric fields from the 256-bit boundary strategy, recipient absent/null/address, calldata lengths {0,1,2,31,32,55,56,57,255,256,uniform<=2000}, access lists of 0..4 entries x 0..4 slots with repeats, rendered to JSON with shuffled keys; key from the scalar strategy; signature = key.sign(signing_message()). Oracle: reference model (kind rule from keys, unsigned payload digest, signed payload bytes), strict canonical-RLP decode with field-by-field comparison, v/yParity formula, sender recovery over the reference digest. A second sub-check renders documents the tool need not accept but whose meaning is fixed if it does (redundant gasPrice next to fee-market fields, foreign JSON-RPC keys, access-list entries in object notation, a duplicated key, only one of the two fee-market fields next to a gasPrice: refused or payload type 0x02): refused -> nothing asserted, accepted -> the same oracle applies. JSON text is re-spelled with random white space and string escapes. Non-trivial: not one of the four pinned near-empty transactions; distinct by (document, key).".into();
     ctx.assumptions = vec!["legacy chain ids are kept <= floor((2^256-37)/2) here; larger ones are C11's subject".into()];
     ctx.replay_known_and_regressions(&replay);
     let n = ctx.tier.pick(60_000, 1_000_000);
